@@ -97,6 +97,19 @@ pub enum Op {
     /// Register this many filler names under an agent that is not part of the spec, so that the
     /// identifiers allocated before and after lie a chosen distance apart.
     Burn(usize),
+    /// *Kind confusion*: the wrapped data operation is of the kind the item is **not** declared
+    /// with (`put_value`/`get_value`/`delete_value` through the identifier of a map item,
+    /// `update_map`/`remove_map`/`clear_map`/`read_map` through the identifier of a value item).
+    Cross(Box<Op>),
+    /// Read every item through both kinds of read (`get_value` and `read_map`).
+    AuditBoth,
+    /// Read one item through both kinds of read.
+    AuditItem(usize, usize),
+    /// Try to open the database a second time while it is open (RocksDB parts only).
+    SecondOpen,
+    /// Close the database, let a foreign writer put a malformed (too short) key under the prefix of
+    /// this map item into the map column family, reopen (part `rocks-foreign-key`).
+    Foreign(usize, usize, u8),
 }
 
 /// One call on the store (or one close/reopen of the database).
@@ -117,6 +130,27 @@ pub enum Step {
     /// `id_for` of this many fresh filler names (see `Op::Burn`); not a single call, but it never
     /// touches the content of an item of the spec.
     Burn(usize),
+    /// The wrapped data step is issued on an item declared with the other kind (see `Op::Cross`).
+    Cross(Box<Step>),
+    /// A second `open_rocks_store(..).open_plane(..)` on the directory that is already open.
+    SecondOpen,
+    /// See `Op::Foreign`; the last field selects the shape of the key (`foreign_key`).
+    Foreign(usize, usize, u8),
+}
+
+/// The malformed keys of the part `rocks-foreign-key`: all begin with the 9 bytes every key of the
+/// map item `id` begins with (`[MAP_TAG][id, 8 bytes little-endian]`) and are shorter than the 18
+/// bytes of the fixed part of a well-formed key (`.. [KEY][length, 8 bytes]`).
+pub fn foreign_key(id: u64, variant: u8) -> Vec<u8> {
+    let mut k = vec![1u8];
+    k.extend_from_slice(&id.to_le_bytes());
+    match variant % 4 {
+        0 => {}                                                   // the bare prefix (what a range read seeks)
+        1 => k.push(1),                                           // + the KEY tag
+        2 => k.extend_from_slice(&[1, 5, 0, 0, 0, 0, 0, 0]),      // + 7 of the 8 length bytes (sorts between real keys)
+        _ => k.extend_from_slice(&[1, 0xff, 0xff, 0xff]),         // + a cut-off, absurd length
+    }
+    k
 }
 
 impl Step {
@@ -137,13 +171,30 @@ impl Step {
             Step::Clear(..) => "clear_map",
             Step::Read(..) => "read_map",
             Step::Burn(_) => "burn_ids",
+            Step::Cross(inner) => inner.name(),
+            Step::SecondOpen => "second_open",
+            Step::Foreign(..) => "foreign_short_key",
         }
+    }
+
+    /// The data operation itself and whether it is of the other kind than the item's declaration.
+    pub fn data_op(&self) -> (&Step, bool) {
+        match self {
+            Step::Cross(inner) => (inner.as_ref(), true),
+            s => (s, false),
+        }
+    }
+
+    /// Is this one of the map operations (`update_map`/`remove_map`/`clear_map`/`read_map`)?
+    pub fn is_map_op(&self) -> bool {
+        matches!(self.data_op().0, Step::Upd(..) | Step::Rem(..) | Step::Clear(..) | Step::Read(..))
     }
 
     pub fn target(&self) -> Option<(usize, Option<usize>)> {
         match self {
             Step::Open(a) | Step::Drop(a) | Step::Handover(a, _) => Some((*a, None)),
-            Step::ReopenDb | Step::Burn(_) => None,
+            Step::ReopenDb | Step::Burn(_) | Step::SecondOpen => None,
+            Step::Cross(inner) => inner.target(),
             Step::IdFor(a, i)
             | Step::Put(a, i, _)
             | Step::Get(a, i)
@@ -151,12 +202,13 @@ impl Step {
             | Step::Upd(a, i, _, _)
             | Step::Rem(a, i, _)
             | Step::Clear(a, i)
+            | Step::Foreign(a, i, _)
             | Step::Read(a, i) => Some((*a, Some(*i))),
         }
     }
 
     pub fn is_mutation(&self) -> bool {
-        matches!(self, Step::Put(..) | Step::Del(..) | Step::Upd(..) | Step::Rem(..) | Step::Clear(..))
+        matches!(self.data_op().0, Step::Put(..) | Step::Del(..) | Step::Upd(..) | Step::Rem(..) | Step::Clear(..))
     }
 
     /// Human-readable form used in violation details (the scratch directory is gone by then).
@@ -176,6 +228,12 @@ impl Step {
             Step::Clear(a, i) => format!("clear_map {}", at(a, i)),
             Step::Read(a, i) => format!("read_map {}", at(a, i)),
             Step::Burn(n) => format!("id_for of {n} fresh filler names under the agent \"/verif-filler\""),
+            Step::Cross(inner) => format!("{} (the item is otherwise used as a {})", inner.describe(spec), match inner.target() {
+                Some((a, Some(i))) => spec.kind(a, i),
+                _ => "?",
+            }),
+            Step::SecondOpen => "open the same database directory a second time while it is open".to_string(),
+            Step::Foreign(a, i, v) => format!("close the database; a foreign writer puts a malformed key (shape {}) under the key prefix of {} into the map column family; reopen", v % 4, at(a, i)),
         }
     }
 }
@@ -215,44 +273,90 @@ pub enum Cell {
     Map(BTreeMap<Vec<u8>, Vec<u8>>),
 }
 
+/// Whether an item may hold data of the kind *other* than the one of an operation (decides whether
+/// a store is entitled to refuse the operation with `InvalidOperation`).
+#[derive(Clone, Copy, Debug, PartialEq, Eq)]
+pub enum Presence {
+    /// Nothing of the other kind: never written, or removed by `delete_value` / `clear_map`.
+    Absent,
+    /// A map that received entries and lost all of them through `remove_map`: a store may still
+    /// regard it as an (empty) map or as nothing; the statement does not decide.
+    MaybeEmptyMap,
+    /// A value / at least one map entry of the other kind is stored.
+    Data,
+}
+
 /// The reference: (agent, item) -> value | map. Agents and items are addressed by index; the
 /// generator guarantees that distinct indices are distinct (URI, name) pairs.
+///
+/// `cells` is the representation of the item's declared kind. `cross` is the representation of the
+/// *other* kind (a map for a value item, a value for a map item): it only ever changes through
+/// kind-confusion steps (`Step::Cross`) **that the store accepted**. A store that keeps the two
+/// kinds apart (RocksDB: separate column families) accepts them all, and then both representations
+/// must behave as independent storage; a store that refuses them (the in-memory store:
+/// `InvalidOperation`) must leave everything as it was.
 #[derive(Clone, Debug, PartialEq, Eq)]
 pub struct Model {
     pub cells: Vec<Vec<Cell>>,
+    pub cross: Vec<Vec<Cell>>,
+    /// The map representation received an entry since it was last cleared (see `Presence`).
+    pub map_touched: Vec<Vec<bool>>,
+}
+
+fn apply_cell(cell: &mut Cell, touched: &mut bool, op: &Step) {
+    match (op, cell) {
+        (Step::Put(_, _, v), c @ Cell::Value(_)) => *c = Cell::Value(Some(v.clone())),
+        (Step::Del(..), c @ Cell::Value(_)) => *c = Cell::Value(None),
+        (Step::Upd(_, _, k, v), Cell::Map(m)) => {
+            m.insert(k.clone(), v.clone());
+            *touched = true;
+        }
+        (Step::Rem(_, _, k), Cell::Map(m)) => {
+            m.remove(k);
+        }
+        (Step::Clear(..), Cell::Map(m)) => {
+            m.clear();
+            *touched = false;
+        }
+        _ => {}
+    }
 }
 
 impl Model {
     pub fn new(spec: &Spec) -> Model {
+        let cell = |map: bool| if map { Cell::Map(BTreeMap::new()) } else { Cell::Value(None) };
         Model {
-            cells: spec
-                .agents
-                .iter()
-                .map(|a| a.items.iter().map(|it| if it.map { Cell::Map(BTreeMap::new()) } else { Cell::Value(None) }).collect())
-                .collect(),
+            cells: spec.agents.iter().map(|a| a.items.iter().map(|it| cell(it.map)).collect()).collect(),
+            cross: spec.agents.iter().map(|a| a.items.iter().map(|it| cell(!it.map)).collect()).collect(),
+            map_touched: spec.agents.iter().map(|a| vec![false; a.items.len()]).collect(),
         }
     }
 
+    /// Apply a step that the store accepted.
     pub fn apply(&mut self, step: &Step) {
-        match step {
-            Step::Put(a, i, v) => self.cells[*a][*i] = Cell::Value(Some(v.clone())),
-            Step::Del(a, i) => self.cells[*a][*i] = Cell::Value(None),
-            Step::Upd(a, i, k, v) => {
-                if let Cell::Map(m) = &mut self.cells[*a][*i] {
-                    m.insert(k.clone(), v.clone());
-                }
-            }
-            Step::Rem(a, i, k) => {
-                if let Cell::Map(m) = &mut self.cells[*a][*i] {
-                    m.remove(k);
-                }
-            }
-            Step::Clear(a, i) => {
-                if let Cell::Map(m) = &mut self.cells[*a][*i] {
-                    m.clear();
-                }
-            }
-            _ => {}
+        let (op, cross) = step.data_op();
+        if let Some((a, Some(i))) = op.target() {
+            let cell = if cross { &mut self.cross[a][i] } else { &mut self.cells[a][i] };
+            apply_cell(cell, &mut self.map_touched[a][i], op);
+        }
+    }
+
+    /// The representation of one kind of an item (whichever of `cells` / `cross` has that kind).
+    pub fn repr(&self, a: usize, i: usize, map: bool) -> &Cell {
+        match (&self.cells[a][i], map) {
+            (Cell::Map(_), true) | (Cell::Value(_), false) => &self.cells[a][i],
+            _ => &self.cross[a][i],
+        }
+    }
+
+    /// What the item holds of the kind other than the one of a map (`op_is_map`) / value operation.
+    pub fn other_presence(&self, a: usize, i: usize, op_is_map: bool) -> Presence {
+        match self.repr(a, i, !op_is_map) {
+            Cell::Value(Some(_)) => Presence::Data,
+            Cell::Value(None) => Presence::Absent,
+            Cell::Map(m) if !m.is_empty() => Presence::Data,
+            Cell::Map(_) if self.map_touched[a][i] => Presence::MaybeEmptyMap,
+            Cell::Map(_) => Presence::Absent,
         }
     }
 }
@@ -279,6 +383,13 @@ pub struct GenParams {
     /// Follow every `clear_map` by a read of *every* item, so that a clear that reaches beyond its
     /// own item is seen at once (and the witness is short).
     pub audit_after_clear: bool,
+    /// Chance (percent) that an operation is a *kind-confusion* operation (`Op::Cross`), followed
+    /// by a read of that item through both kinds of read (one time in three: of every item).
+    /// Audits of such histories read every item through both kinds of read. 0 = never (the
+    /// generated stream is then exactly the one of the histories without this field).
+    pub cross_pct: u64,
+    /// Weight of `Op::SecondOpen` (RocksDB parts with a directory of their own only).
+    pub second_open_weight: u64,
 }
 
 const URIS: &[&str] = &[
@@ -429,9 +540,41 @@ pub fn gen_ops(rng: &mut Rng, spec: &Spec, keys: &[Vec<u8>], p: &GenParams, mut 
     let mut ops = Vec::new();
     let all_items: Vec<(usize, usize)> =
         (0..spec.agents.len()).flat_map(|a| (0..spec.agents[a].items.len()).map(move |i| (a, i))).collect();
+    let audit = || if p.cross_pct > 0 { Op::AuditBoth } else { Op::Audit };
     for _ in 0..n_ops {
         let (a, i) = *rng.pick(&all_items);
         let map = spec.agents[a].items[i].map;
+        if p.cross_pct > 0 && rng.chance(p.cross_pct, 100) {
+            // The operation of the other kind: value operations on a map item, map operations on
+            // a value item.
+            let inner = if map {
+                match rng.below(10) {
+                    0..=4 => {
+                        serial += 1;
+                        Op::Put(a, i, gen_value(rng, serial, p))
+                    }
+                    5 | 6 => Op::Del(a, i),
+                    _ => Op::Get(a, i),
+                }
+            } else {
+                match rng.below(20) {
+                    0..=8 => {
+                        serial += 1;
+                        Op::Upd(a, i, rng.pick(keys).clone(), gen_value(rng, serial, p))
+                    }
+                    9..=12 => Op::Rem(a, i, rng.pick(keys).clone()),
+                    13..=15 => Op::Clear(a, i),
+                    _ => Op::Read(a, i),
+                }
+            };
+            ops.push(Op::Cross(Box::new(inner)));
+            ops.push(if rng.chance(1, 3) { Op::AuditBoth } else { Op::AuditItem(a, i) });
+            continue;
+        }
+        if p.second_open_weight > 0 && rng.chance(p.second_open_weight, 100) {
+            ops.push(Op::SecondOpen);
+            continue;
+        }
         let w = rng.below(100 + p.reopen_weight);
         let op = if w >= 100 {
             Op::Reopen
@@ -442,7 +585,7 @@ pub fn gen_ops(rng: &mut Rng, spec: &Spec, keys: &[Vec<u8>], p: &GenParams, mut 
         } else if w < 13 && p.handover {
             Op::Handover(a, *rng.pick(&[Handover::Wait, Handover::Wait, Handover::Cancel, Handover::TwoWaiters]))
         } else if w < 15 {
-            Op::Audit
+            audit()
         } else if map {
             match rng.below(20 + p.clear_extra) {
                 0..=10 => {
@@ -467,7 +610,7 @@ pub fn gen_ops(rng: &mut Rng, spec: &Spec, keys: &[Vec<u8>], p: &GenParams, mut 
         let cleared = matches!(op, Op::Clear(..));
         ops.push(op);
         if cleared && p.audit_after_clear {
-            ops.push(Op::Audit);
+            ops.push(audit());
         }
     }
     ops
@@ -479,7 +622,7 @@ pub fn gen_script(seed: u64, p: &GenParams) -> Script {
     let spec = gen_spec(rng, p);
     let keys = gen_keys(rng);
     let mut ops = gen_ops(rng, &spec, &keys, p, 0);
-    ops.push(Op::Audit);
+    ops.push(if p.cross_pct > 0 { Op::AuditBoth } else { Op::Audit });
     Script { spec, ops, keys, prologue: 0 }
 }
 
@@ -629,6 +772,46 @@ pub fn expand(spec: &Spec, ops: &[Op]) -> Vec<Step> {
                 steps.push(Step::ReopenDb);
             }
             Op::Burn(n) => steps.push(Step::Burn(*n)),
+            Op::SecondOpen => steps.push(Step::SecondOpen),
+            Op::Foreign(a, i, v) => {
+                need(*a, *i, &mut open, &mut have, &mut steps); // the identifier must be known
+                open.iter_mut().for_each(|o| *o = false);
+                have.iter_mut().for_each(|h| h.iter_mut().for_each(|x| *x = false));
+                steps.push(Step::Foreign(*a, *i, *v));
+            }
+            Op::Cross(inner) => {
+                let step = match inner.as_ref() {
+                    Op::Put(a, i, v) => Step::Put(*a, *i, v.clone()),
+                    Op::Get(a, i) => Step::Get(*a, *i),
+                    Op::Del(a, i) => Step::Del(*a, *i),
+                    Op::Upd(a, i, k, v) => Step::Upd(*a, *i, k.clone(), v.clone()),
+                    Op::Rem(a, i, k) => Step::Rem(*a, *i, k.clone()),
+                    Op::Clear(a, i) => Step::Clear(*a, *i),
+                    Op::Read(a, i) => Step::Read(*a, *i),
+                    _ => continue, // only data operations are ever wrapped
+                };
+                if let Some((a, Some(i))) = step.target() {
+                    need(a, i, &mut open, &mut have, &mut steps);
+                    steps.push(Step::Cross(Box::new(step)));
+                }
+            }
+            Op::AuditBoth | Op::AuditItem(..) => {
+                let only = match op {
+                    Op::AuditItem(a, i) => Some((*a, *i)),
+                    _ => None,
+                };
+                for a in 0..spec.agents.len() {
+                    for i in 0..spec.agents[a].items.len() {
+                        if only.map_or(false, |o| o != (a, i)) {
+                            continue;
+                        }
+                        need(a, i, &mut open, &mut have, &mut steps);
+                        let (own, other) = if spec.agents[a].items[i].map { (Step::Read(a, i), Step::Get(a, i)) } else { (Step::Get(a, i), Step::Read(a, i)) };
+                        steps.push(own);
+                        steps.push(Step::Cross(Box::new(other)));
+                    }
+                }
+            }
             Op::Audit => {
                 for a in 0..spec.agents.len() {
                     for i in 0..spec.agents[a].items.len() {
